@@ -143,6 +143,8 @@ impl TableFile {
 		let offset = offset as usize;
 		let map = self.map.read();
 		let (map, _) = map.as_ref().unwrap();
+		#[cfg(pdb_verif)]
+		crate::verif::touch_read(self.id.as_u16() as usize % 48);
 		buf.copy_from_slice(&map[offset..offset + buf.len()]);
 		Ok(())
 	}
@@ -162,6 +164,8 @@ impl TableFile {
 		let offset = offset as usize;
 		let map = self.map.read();
 		let (map, _) = map.as_ref().unwrap();
+		#[cfg(pdb_verif)]
+		crate::verif::touch_read(self.id.as_u16() as usize % 48);
 		MappedBytesGuard::new(map[offset..offset + len].to_vec())
 	}
 
@@ -177,6 +181,8 @@ impl TableFile {
 			let ptr = ptr.add(offset);
 			std::slice::from_raw_parts_mut(ptr, buf.len())
 		};
+		#[cfg(pdb_verif)]
+		crate::verif::touch_write(self.id.as_u16() as usize % 48);
 		data.copy_from_slice(buf);
 		#[cfg(pdb_verif)]
 		crate::verif::store(&self.path, offset as u64, buf);
